@@ -356,9 +356,13 @@ def tie(ctx):
             continue
         if doc is None or loaded is None:
             fam["cli_profile"]["disagreements"].append({"why": f"profile command failed ({err or lerr}) but the model accepts", "input": inp})
+            if doc is not None:
+                violations.append({"why": f"the profile written by the profile command with {toks} cannot be loaded again: {lerr}", "input": inp, "signature": "c18:roundtrip_load_fails"})
             continue
         mv = {n: unwire(v) for n, v in upd["values"]}
-        bad = [kk for kk in loaded if kk != "neutral_value" and not same(loaded[kk], mv[kk])]
+        # without an explicit value the neutral value is taken from the neutral region of the file, not from the table
+        nv_given = any(t.split("=")[0].strip().replace("-", "_") == "neutral_value" for t in toks)
+        bad = [kk for kk in loaded if (kk != "neutral_value" or nv_given) and not same(loaded[kk], mv[kk])]
         if bad:
             fam["cli_profile"]["disagreements"].append({"why": f"profile written with {toks} reloads with {bad[0]}={loaded[bad[0]]}, model says {mv[bad[0]]}", "input": inp})
             violations.append({"why": f"profile written by the profile command with {toks} and loaded again carries {bad[0]}={loaded[bad[0]][1]!r} instead of {mv[bad[0]][1]!r}", "input": inp, "signature": "c18:roundtrip"})
